@@ -15,6 +15,12 @@ and cancelled), sometimes satisfying them.  Every call is a trigger of its own: 
 call began, and the call has to return trigger_type "time" at the earliest denoted instant after that,
 with trigger_time equal to it, however often it is woken up in between.
 
+Some of the decorated functions carry one more trigger decorator (state / event / MQTT / webhook) whose condition
+the driver's pokes never meet; pokes of waiters and of such functions can be *aimed*: delivered 0-6 loop passes
+before the next instant the target's specifications denote, so that the trigger is handling the notification while
+the instant passes.  Times of day are also written with fractional seconds (h:m:s.f); instants given by absolute
+specifications are compared to the microsecond.
+
 Oracle: sim.calendar enumerates the denoted instants in the simulated window from the documentation.
 """
 
@@ -34,7 +40,13 @@ RULE = (
     "seeded generation of 1-3 functions x 1-3 time specifications (once/period/cron over the documented date, time "
     "and offset grammar) run for a simulated window of minutes (second-level periods), hours (minute-level) or up "
     "to 3 days (daily/cron), on ordinary and DST-transition days in 4 time zones, with drift, timer lateness, "
-    "stalls and optional reload; in 40% of the runs additionally 1-2 waiter functions that loop over "
+    "stalls and optional reload; times of day with a decimal fraction of a second (h:m:s.f, 1-6 digits) in 15-30% of "
+    "the once()/period() time-of-day forms; in 30% of the runs ~70% of the functions carry one more trigger decorator "
+    "(state/event/mqtt/webhook) that never qualifies, with 0-6 pokes of it, half of them aimed 0-6 loop passes before "
+    "the function's next denoted instant (40% of the non-qualifying waiter pokes are aimed the same way); in the "
+    "non-steered half of the runs 2 direct successor probes of once(<weekday> h:m[:s]) for a trigger first evaluated on "
+    "that weekday before / after the time or on another weekday, 'now' from there up to the first occurrence; "
+    "in 40% of the runs additionally 1-2 waiter functions that loop over "
     "task.wait_until(time_trigger=1-2 such specifications [+ state/event/mqtt/webhook conditions, state_hold]) with "
     "seeded pauses, and 0-8 pokes of those other conditions at seeded instants (non-qualifying, 15% qualifying, "
     "hold start+cancel); distinct = scenario digest; non-trivial = at least 3 denoted instants fired"
@@ -47,8 +59,18 @@ ASSUMPTIONS = [
     "February, or the 2/28 / 3/1 reading for the years without one) and for period(<date time>, 0.1-1.5 s)",
     "wall-clock labels inside a DST gap/fold hour are don't-care; for period() across a DST change only absolute "
     "spacing is required (the naive label is don't-care); cron and once follow the local wall clock",
-    "once(<weekday> ..): only the first occurrence after start is required (the docs say 'once on that day of the "
-    "week'); later ones and a same-day start after the time are don't-care; today/tomorrow forms are not generated",
+    "once(<weekday> ..): only the first occurrence after the trigger's first evaluation is required (the docs say "
+    "'once on that day of the week': it is denoted both when that means once and when it means every week) - today if "
+    "the trigger starts on that weekday before the time, a week later if it starts after the time (asked from the "
+    "successor function directly, for every 'now' up to that occurrence); whether it comes again a week after it has "
+    "fired is don't-care; period() with weekday dates and the today/tomorrow forms are not generated (the "
+    "documentation does not describe them)",
+    "an instant given by an absolute specification (date / time of day with or without fractional seconds, crontab) "
+    "is denoted to the microsecond: the computed next time and trigger_time have to equal it (now-relative instants "
+    "are known to the oracle to a few loop passes only)",
+    "a @time_trigger function that also has a state/event/mqtt/webhook trigger decorator still runs once per denoted "
+    "instant; the pokes of that other trigger never meet its condition (runs with another trigger_type are not "
+    "judged here); a poke aimed at an instant may land a few passes before or after it",
     "an instant may be skipped or fire late only if the loop was stalled past it; clock steps are not injected",
     "sunrise/sunset come from the astral library (treated as environment, same location as the harness)",
     "task.wait_until(time_trigger=..): each call is one trigger whose 'now' is the instant the call began (known to "
@@ -68,10 +90,15 @@ REACH_PROBES = ["successor_probe", "successor_probe_yearly", "successor_probe_at
                 "sunrise_or_sunset", "weekly_or_yearly", "wait_until_time_return", "wait_until_now_relative",
                 "wait_until_with_other_triggers", "wait_until_woken_not_qualifying", "wait_until_woken_now_relative",
                 "wait_until_other_trigger_first", "wait_until_hold_started_and_cancelled", "wait_until_none_left",
-                "wait_until_pending_at_end"]
+                "wait_until_pending_at_end", "fractional_second_spec", "weekday_spec_started_that_day",
+                "successor_probe_weekday_spec", "successor_probe_weekday_started_after_time", "poke_just_before_instant",
+                "function_with_other_trigger", "function_poked_just_before_instant"]
 SHRINK_LISTS = [["ops"], ["spec", "funcs"], ["spec", "funcs", "*", "specs"], ["spec", "waiters"],
-                ["spec", "waiters", "*", "specs"], ["spec", "waiters", "*", "others"]]
+                ["spec", "waiters", "*", "specs"], ["spec", "waiters", "*", "others"], ["spec", "weekday_probe"]]
 OTHER_KINDS = ["state", "event", "mqtt", "webhook"]
+# an instant given by an absolute specification (date/time of day, crontab) is denoted to the microsecond - times can
+# be written with fractional seconds - and the computed trigger time / trigger_time has to be that very instant
+LABEL_TOL = 5e-7
 
 DST_EPOCHS = {
     # local evening before a change, UTC (start a few hours before the transition)
@@ -83,10 +110,27 @@ PLAIN_EPOCHS = ["2024-05-14T17:00:00.250000", "2024-02-28T22:15:30.250000", "202
                 "2025-01-15T03:30:00.000000", "2024-07-04T12:00:00.125000"]
 
 
-# ------------------------------------------------------------------ generation
+# decimal fractions of a second ('Seconds are optional, and can include a decimal (fractional) portion'): digits after
+# the point, 1 to 6 of them
+FRACTIONS = ["1", "2", "3", "5", "6", "7", "9", "07", "25", "35", "75", "001", "015", "123", "0625", "123457", "999999"]
+
+
+def _frac_sec(rng: random.Random, p: float, whole_choices=(0, 1, 5, 15, 23, 30, 44, 58, 59)):
+    """With probability ``p`` a second with a decimal fraction (h:m:s.f), else None.  The value is the float nearest
+    to the decimal, so it prints as that decimal and denotes exactly that many microseconds."""
+    if rng.random() >= p:
+        return None
+    return float(f"{rng.choice(whole_choices)}.{rng.choice(FRACTIONS)}")
+
+
 def _hms(rng, sec=False):
-    return {"k": "hms", "h": rng.randint(0, 23), "m": rng.choice([0, 5, 10, 15, 30, 45, 59]),
-            "s": rng.choice([0, 0, 30]) if sec else 0}
+    out = {"k": "hms", "h": rng.randint(0, 23), "m": rng.choice([0, 5, 10, 15, 30, 45, 59]),
+           "s": rng.choice([0, 0, 30]) if sec else 0}
+    if sec:
+        frac = _frac_sec(rng, 0.25)
+        if frac is not None:
+            out["s"] = frac
+    return out
 
 
 def _gen_spec(rng: random.Random, speed: str, local0: dt.datetime) -> dict:
@@ -114,8 +158,10 @@ def _gen_spec(rng: random.Random, speed: str, local0: dt.datetime) -> dict:
                 spec["end"] = {"date": {"k": "now"}, "time": none, "off": spec["start"]["off"] + spec["iv"] * rng.randint(1, 6)}
             return spec
         target = local0 + dt.timedelta(minutes=rng.randint(3, 170))
+        sec = rng.choice([0, 0, 30])
+        frac = _frac_sec(rng, 0.3)
         return {"type": "once", "at": {"date": {"k": "none"}, "time": {"k": "hms", "h": target.hour, "m": target.minute,
-                                                                         "s": rng.choice([0, 0, 30])}, "off": 0}}
+                                                                         "s": sec if frac is None else frac}, "off": 0}}
     # slow: window of days
     roll = rng.random()
     if roll < 0.25:
@@ -135,8 +181,9 @@ def _gen_spec(rng: random.Random, speed: str, local0: dt.datetime) -> dict:
             date = {"k": "md", "m": target.month, "d": target.day}
         else:
             date = {"k": "dow", "dow": target.isoweekday() % 7}
-        return {"type": "once", "at": {"date": date, "time": {"k": "hms", "h": target.hour, "m": target.minute, "s": 0},
-                                       "off": 0}}
+        frac = _frac_sec(rng, 0.25)
+        return {"type": "once", "at": {"date": date, "time": {"k": "hms", "h": target.hour, "m": target.minute,
+                                                               "s": 0 if frac is None else frac}, "off": 0}}
     if roll < 0.65:
         return {"type": "cron", "expr": rng.choice([
             f"{rng.choice([0, 15, 30])} {rng.randint(0, 23)} * * *", "0 */6 * * *", "30 1-4 * * *", "0 2,3 * * *",
@@ -152,12 +199,20 @@ def _gen_spec(rng: random.Random, speed: str, local0: dt.datetime) -> dict:
             end = start + dt.timedelta(seconds=spec["iv"] * rng.randint(2, 30))
             spec["end"] = {"date": {"k": "full", "y": end.year, "m": end.month, "d": end.day},
                            "time": {"k": "hms", "h": end.hour, "m": end.minute, "s": 0}, "off": 0}
+        frac = _frac_sec(rng, 0.2)
+        if frac is not None:
+            # (the intervals are whole minutes: the last instant, the end, has the same second)
+            spec["start"]["time"]["s"] = frac
+            if spec.get("end") is not None:
+                spec["end"]["time"]["s"] = frac
         return spec
     if roll < 0.9:
         # time-only start, daily re-anchoring, self-consistent: start < interval, interval divides 24 h
         iv = rng.choice([3600, 7200, 10800, 14400, 21600, 43200])
         smin = rng.choice([0, 10, 30, 45])
-        return {"type": "period", "start": {"date": {"k": "none"}, "time": {"k": "hms", "h": 0, "m": smin, "s": 0}, "off": 0},
+        frac = _frac_sec(rng, 0.15)
+        return {"type": "period", "start": {"date": {"k": "none"}, "time": {"k": "hms", "h": 0, "m": smin,
+                                                                             "s": 0 if frac is None else frac}, "off": 0},
                 "iv": iv}
     # time-only start and end (daily window), possibly wrapping midnight
     h0 = rng.randint(0, 23)
@@ -205,12 +260,17 @@ def gen(rng: random.Random, tier: str) -> dict:
                     "s": rng.choice([0.05, 2.0, 30.0]) if speed != "fast" else rng.choice([0.05, 2.0])})
     # (drawn last: the rest of the scenario is the same with and without waiters)
     waiters = _gen_waiters(rng, speed, local0, window, ops, cfg)
+    _gen_func_others(rng, funcs, window, ops, cfg)
     # steer = True keeps the run clear of constructs on which the unchanged code is known to deviate (the direct
-    # successor probes of once(2/29 ..) and of sub-second period() intervals), so that half of the runs stay clean
+    # successor probes of once(2/29 ..), of sub-second period() intervals and of once(<weekday> ..)), so that half of
+    # the runs stay clean
     steer = rng.random() < 0.5
+    # direct successor probes of once(<weekday> hh:mm): how the trigger's first evaluation lies to that weekday
+    weekday_probe = [rng.choice(["that_day_before_time", "that_day_after_time", "that_day_after_time", "other_day"])
+                     for _ in range(2)]
     ops.sort(key=lambda o: o["at"])
     return {"cfg": cfg, "spec": {"funcs": funcs, "window": window, "speed": speed, "dst": dst, "waiters": waiters,
-                                 "steer": steer},
+                                 "steer": steer, "weekday_probe": weekday_probe},
             "ops": ops}
 
 
@@ -262,9 +322,40 @@ def _gen_waiters(rng: random.Random, speed: str, local0: dt.datetime, window: fl
             # becomes true and, a moment later, false again: with state_hold a hold that is started and cancelled
             op["go"] = True
             op["blip"] = rng.choice([0.25, 0.25, 1.0])
+        elif not op["go"] and rng.random() < 0.4:
+            op["aim"] = rng.choice(AIM_PASSES)
         ops.append(op)
     cfg["initial_states"] = {f"pyscript.c06{wt['name']}": ["idle", {}] for wt in waiters}
     return waiters
+
+
+# a poke can be aimed: the driver waits for the next instant the target's specifications denote and delivers the
+# poke this many loop passes (of the run's per-pass cost) before it, so that the trigger is busy with the
+# notification while the instant passes
+AIM_PASSES = [0, 1, 1, 2, 2, 3, 4, 6]
+
+
+def _gen_func_others(rng: random.Random, funcs: list, window: float, ops: list, cfg: dict) -> None:
+    """Some of the @time_trigger functions get one more trigger decorator (state / event / MQTT / webhook) whose
+    condition is never met, and 0-6 pokes of it at seeded instants, half of them aimed just before a denoted instant:
+    the function still has to run once per instant, whatever notifications its trigger handles in between."""
+    if rng.random() >= 0.3:
+        return
+    chosen = [func for func in funcs if func["specs"] and rng.random() < 0.7]
+    for func in chosen:
+        func["other"] = rng.choice(OTHER_KINDS)
+    if not chosen:
+        return
+    for _ in range(rng.randint(0, 6)):
+        func = rng.choice(chosen)
+        at = rng.uniform(0.01, 0.95) * window
+        op = {"at": round(at, 2), "kind": "poke", "w": func["name"], "via": func["other"], "go": False}
+        if rng.random() < 0.5:
+            op["aim"] = rng.choice(AIM_PASSES)
+        ops.append(op)
+    states = dict(cfg.get("initial_states") or {})
+    states.update({f"pyscript.c06{func['name']}": ["idle", {}] for func in chosen if func["other"] == "state"})
+    cfg["initial_states"] = states
 
 
 # ------------------------------------------------------------------ rendering
@@ -279,6 +370,8 @@ def render(scn: dict, gen_no: int = 0) -> dict:
         if func["shutdown"]:
             args.append("'shutdown'")
         lines.append(f"@time_trigger({', '.join(args)}, kwargs={func['kwargs']!r})")
+        if func.get("other"):
+            lines.append(_other_decorator_src(func))
         lines.append(f"def {func['name']}(**kw):")
         lines.append(f"    sim.mark({func['name']!r}, {gen_no}, **kw)")
         lines.append("")
@@ -303,6 +396,23 @@ def render(scn: dict, gen_no: int = 0) -> dict:
             lines.append(f"        task.sleep({wt['gap']})")
         lines.append("")
     return {"pyscript/c06.py": "\n".join(lines) + "\n"}
+
+
+def _other_decorator_src(func: dict) -> str:
+    """One more trigger decorator on a @time_trigger function; its condition is never met by the pokes."""
+    name, via = func["name"], func["other"]
+    if via == "state":
+        expr = f"pyscript.c06{name} == 'go'"
+        return f"@state_trigger({expr!r})"
+    if via == "event":
+        return f"@event_trigger({'c06_ev_' + name!r}, 'n == 1')"
+    if via == "mqtt":
+        flt = "payload == 'go'"
+        return f"@mqtt_trigger({'c06/' + name!r}, {flt!r})"
+    if via == "webhook":
+        flt = "payload['n'] == 1"
+        return f"@webhook_trigger({'c06hook' + name!r}, {flt!r})"
+    raise ValueError(func)
 
 
 def _wait_call_src(wt: dict) -> str:
@@ -333,13 +443,14 @@ def normalize(scn: dict) -> dict | None:
     scn["spec"]["funcs"] = funcs
     if "waiters" in scn["spec"]:
         scn["spec"]["waiters"] = waiters
-    by_name = {wt["name"]: wt for wt in waiters}
+    by_name = {wt["name"]: wt["others"] for wt in waiters}
+    by_name.update({func["name"]: [func["other"]] for func in funcs if func.get("other") and func["specs"]})
     for wt in waiters:
         if "state" not in wt["others"]:
             wt["hold"] = None
-    # a poke needs its waiter and the condition it addresses
+    # a poke needs its waiter / function and the condition it addresses
     scn["ops"] = [op for op in scn["ops"] if op["kind"] != "poke"
-                  or (op["w"] in by_name and op["via"] in by_name[op["w"]]["others"])]
+                  or (op["w"] in by_name and op["via"] in by_name[op["w"]])]
     return scn
 
 
@@ -361,6 +472,15 @@ def simplify(scn: dict):
             cand = copy.deepcopy(scn)
             cand["ops"][oi]["go"] = False
             cand["ops"][oi].pop("blip", None)
+            yield cand
+        if op["kind"] == "poke" and "aim" in op:
+            cand = copy.deepcopy(scn)
+            del cand["ops"][oi]["aim"]
+            yield cand
+    for fi, func in enumerate(scn["spec"]["funcs"]):
+        if func.get("other") and not any(op["kind"] == "poke" and op["w"] == func["name"] for op in scn["ops"]):
+            cand = copy.deepcopy(scn)
+            del cand["spec"]["funcs"][fi]["other"]
             yield cand
     if not scn["spec"].get("steer", True):
         cand = copy.deepcopy(scn)
@@ -415,7 +535,8 @@ def run(scn: dict) -> dict:
                 w.loop.stall(op["s"])
                 w.fault("stall")
             elif op["kind"] == "poke":
-                await _poke(w, op, info)
+                aimed = await _aim(w, scn, op, info) if "aim" in op else None
+                await _poke(w, op, info, aimed)
         end = t_start + spec["window"]
         if end > w.loop.vt:
             await w.sleep(end - w.loop.vt)
@@ -428,11 +549,57 @@ def run(scn: dict) -> dict:
     return base_result(w, violations, nontrivial, extra)
 
 
-async def _poke(w: World, op: dict, info: dict) -> None:
-    """Poke one of the other conditions of a waiter's task.wait_until: qualifying (``go``) or not."""
+class _Quiet:
+    """Stands in for the world where the calendar is consulted by the driver (no reach probes)."""
+
+    @staticmethod
+    def probe(*_a, **_k) -> None:
+        return None
+
+
+async def _aim(w: World, scn: dict, op: dict, info: dict) -> float | None:
+    """Wait until ``op['aim']`` loop passes before the next instant the specifications of the poke's target denote.
+
+    Returns the virtual time of that instant, or None (the poke is delivered at once) if there is none within the
+    look-ahead or the target is not waiting at the moment."""
+    spec, clock, name = scn["spec"], w.clock, op["w"]
+    zone, sun = C.Zone(w.cfg["tz"]), _sun_factory(w, w.cfg["tz"])
+    now_vt = w.loop.vt
+    look = min(max(90.0, 0.15 * spec["window"]), info["t_start"] + spec["window"] - now_vt)
+    func = next((f for f in spec["funcs"] if f["name"] == name), None)
+    if func is not None:
+        specs = func["specs"]
+        vt0 = info["reloads"][-1]["vt1"] if info["reloads"] else info["def0"]
+        startup_local = clock.local_at(vt0)
+    else:
+        wt = next(wt for wt in spec.get("waiters") or [] if wt["name"] == name)
+        specs = wt["specs"]
+        marks = [m for m in w.marks if m["args"] and m["args"][0] == name]
+        if not marks or marks[-1]["args"][3] != "begin":
+            return None
+        vt0, startup_local = marks[-1]["vt"], marks[-1]["wall"]
+    if look <= 0 or not specs:
+        return None
+    # (the driver itself resumes one pass after its timer)
+    lead = (op["aim"] + 1) * w.loop.cost + 2e-6
+    expected = _denoted(_Quiet, clock, zone, sun, specs, startup_local, clock.local_at(now_vt), clock.local_at(now_vt + look),
+                        vt0, now_vt + look, 0.0)
+    ahead = sorted(e[0] for e in expected if e[0] != "dontcare_all" and now_vt + lead + 1e-4 < e[0] <= now_vt + look)
+    if not ahead:
+        return None
+    await w.sleep(ahead[0] - lead - w.loop.vt)
+    w.probe("poke_just_before_instant")
+    return ahead[0]
+
+
+async def _poke(w: World, op: dict, info: dict, aimed: float | None = None) -> None:
+    """Poke one of the other conditions of a waiter's task.wait_until (qualifying - ``go`` - or not), or the never
+    qualifying other trigger of a @time_trigger function."""
     name, via, go = op["w"], op["via"], bool(op.get("go"))
     seq = len(info["pokes"]) + 1
     rec = {"vt": w.loop.vt, "w": name, "via": via, "go": go, "blip": op.get("blip")}
+    if aimed is not None:
+        rec["aimed"] = aimed
     info["pokes"].append(rec)
     if via == "state":
         w.set_state(f"pyscript.c06{name}", "go" if go else f"n{seq}")
@@ -507,7 +674,7 @@ async def successor_probes(w: World, scn: dict) -> list:
             got, _adj = await TrigTime.timer_trigger_next(list(srcs), now, startup)
             w.probe("successor_probe")
             # (compared as absolute instants: a label inside a skipped hour names the instant one hour later)
-            if got is None or abs((zone_.to_utc(got) - zone_.to_utc(want)).total_seconds()) > 1e-5:
+            if got is None or abs((zone_.to_utc(got) - zone_.to_utc(want)).total_seconds()) > LABEL_TOL:
                 out.append({"specs": srcs, "now": str(now), "startup": str(startup), "got": str(got), "want": str(want),
                             "on_instant": now in denoted})
     # ---- once(MM/DD hh:mm:ss) without a year = once per year: the next occurrence can be up to a year (and a leap
@@ -535,11 +702,11 @@ async def successor_probes(w: World, scn: dict) -> list:
             want = denoted[0]
             got, _adj = await TrigTime.timer_trigger_next([src], now, st)
             w.probe("successor_probe_yearly")
-            if got is None or abs((got - want).total_seconds()) > 1e-5:
+            if got is None or abs((got - want).total_seconds()) > LABEL_TOL:
                 out.append({"specs": [src], "now": str(now), "startup": str(st), "got": str(got), "want": str(want),
                             "on_instant": False, "yearly": True})
     if scn["spec"].get("steer", True):
-        return out  # (half of the runs stay clear of the two constructs below)
+        return out  # (half of the runs stay clear of the constructs below)
     # ---- once(2/29 hh:mm) without a year: the date exists in leap years only.  Whatever the specification is taken
     # to denote in the other years (nothing, 2/28 or 3/1 - the documentation does not say), the next real 29th of
     # February is a denoted instant, so the successor is that one or one of those two readings - never an error, and
@@ -594,6 +761,67 @@ async def successor_probes(w: World, scn: dict) -> list:
                 if not isinstance(got, dt.datetime) or abs((got - want).total_seconds()) > 1e-5:
                     out.append({"specs": [src], "now": str(now), "startup": str(startup), "got": str(got), "want": str(want),
                                 "on_instant": now == inst, "case": "sub_second_period"})
+    if scn["spec"].get("weekday_probe"):
+        # (a stream of its own: the draws of the blocks above stay what they were)
+        out += await _weekday_probes(w, scn, random.Random(f"{scn['cfg']['env_seed']}/weekday"), startup, sun)
+    return out
+
+
+async def _weekday_probes(w: World, scn: dict, rng: random.Random, startup: dt.datetime, sun) -> list:
+    """once(<weekday> hh:mm[:ss[.f]]) = 'once on that day of the week'.  Whether it repeats every week is open (see
+    ASSUMPTIONS), but the first occurrence after the trigger's first evaluation is denoted under every reading; so for
+    every 'now' from the first evaluation up to that occurrence the successor is that occurrence - today, if the
+    trigger is started on that weekday before the time, a week later if it is started on that weekday after the time
+    (far outside every simulated window: the successor function is asked directly)."""
+    from custom_components.pyscript.trigger import TrigTime
+
+    out = []
+    zone_ = C.Zone(w.cfg["tz"])
+    us = dt.timedelta(microseconds=1)
+    for rel in scn["spec"]["weekday_probe"]:
+        dow = rng.randrange(7)
+        sec = rng.choice([0, 0, 30, 15.5, 44.25])
+        at = {"date": {"k": "dow", "dow": dow}, "off": 0,
+              "time": {"k": "hms", "h": rng.randint(1, 22), "m": rng.randrange(60), "s": sec}}
+        if rng.random() < 0.2:
+            at["time"] = {"k": rng.choice(["noon", "noon", "midnight"])}
+        src = C.spec_src({"type": "once", "at": at})
+        day = startup.date() + dt.timedelta(days=rng.randrange(0, 720))  # (a two-year window)
+        if rel != "other_day":
+            day += dt.timedelta(days=(dow - day.isoweekday()) % 7)
+        elif day.isoweekday() % 7 == dow:
+            day += dt.timedelta(days=rng.randint(1, 6))
+        at_time = C._time_on_day(at["time"], day, sun)
+        day0 = dt.datetime(day.year, day.month, day.day)
+        if rel == "that_day_before_time" and at_time > day0:
+            st = day0 + (at_time - day0) * rng.uniform(0.0, 0.98)
+        elif rel == "that_day_before_time":
+            continue  # (midnight: there is no earlier time that day)
+        elif rel == "that_day_after_time":
+            st = at_time + (day0 + dt.timedelta(days=1) - at_time) * rng.uniform(0.001, 0.999)
+        else:
+            st = day0 + dt.timedelta(seconds=rng.uniform(0, 86399))
+        st = st.replace(microsecond=250000)
+        first = C.once_instants(at, st, st, st + dt.timedelta(days=8), sun)[0]
+        if zone_.offset_changes_between(st - dt.timedelta(days=1), first + dt.timedelta(days=1)):
+            continue  # (the direct probes stay on ordinary days, see ASSUMPTIONS)
+        nows = [st, st + us, first - us, first - dt.timedelta(seconds=1),
+                st.replace(hour=23, minute=59, second=59, microsecond=999999), day0 + dt.timedelta(days=1)]
+        nows += [st + (first - st) * rng.random() for _ in range(3)]
+        for now in nows:
+            if not st <= now < first:
+                continue
+            try:
+                got, _adj = await TrigTime.timer_trigger_next([src], now, st)
+            except Exception as exc:  # pylint: disable=broad-except
+                got = f"raises {type(exc).__name__}({exc})"
+            w.probe("successor_probe_weekday_spec")
+            if rel == "that_day_after_time":
+                w.probe("successor_probe_weekday_started_after_time")
+            if got != first:
+                how = "raises" if isinstance(got, str) else ("none" if got is None else "wrong")
+                out.append({"specs": [src], "now": str(now), "startup": str(st), "got": str(got), "want": str(first),
+                            "on_instant": False, "case": f"weekday_spec_started_{rel}_{how}"})
     return out
 
 
@@ -624,14 +852,21 @@ def _denoted(w: World, clock, zone, sun, specs: list, startup_local, lo_local, h
     ("dontcare_all", ..) says that the documentation does not settle this trigger at all."""
     expected = []  # (vt, label, kind, strict_label)
     for sp in specs:
+        parts = [sp.get("at"), sp.get("start"), sp.get("end")]
+        if any(part and part["time"]["k"] == "hms" and part["time"].get("s", 0) != int(part["time"].get("s", 0))
+               for part in parts):
+            w.probe("fractional_second_spec")
         if sp["type"] == "once":
             insts = C.once_instants(sp["at"], startup_local, lo_local, hi_local, sun)
             if sp["at"]["date"]["k"] == "dow":
+                # 'once on that day of the week': whether it repeats every week is open, but the first occurrence after
+                # the trigger's first evaluation is denoted under every reading - today, if the trigger starts on that
+                # weekday before the time; a week away (outside every simulated window), if it starts after the time
                 w.probe("weekly_or_yearly")
-                same_day_passed = (startup_local.isoweekday() % 7 == sp["at"]["date"]["dow"])
-                insts = [] if same_day_passed else insts[:1]
-                if same_day_passed:
-                    expected.append(("dontcare_all", None, None, None))
+                if startup_local.isoweekday() % 7 == sp["at"]["date"]["dow"]:
+                    w.probe("weekday_spec_started_that_day")
+                insts = [inst for inst in C.once_instants(sp["at"], startup_local, startup_local, hi_local, sun)[:1]
+                         if inst > lo_local]
             if sp["at"]["date"]["k"] == "md":
                 w.probe("weekly_or_yearly")
             if sp["at"]["time"]["k"] in ("sunrise", "sunset"):
@@ -668,7 +903,8 @@ def _denoted(w: World, clock, zone, sun, specs: list, startup_local, lo_local, h
     return expected
 
 
-def _judge_waiters(w: World, scn: dict, info: dict, viol, zone, clock, sun, slack: float, stalls: list) -> int:
+def _judge_waiters(w: World, scn: dict, info: dict, viol, zone, clock, sun, slack: float, stalls: list,
+                   poked_just_before) -> int:
     """task.wait_until(time_trigger=...) calls of the waiter functions: every call is a trigger of its own.
 
     'now' is the instant the call began (its 'begin' marker, known to a few loop passes); the call has to return
@@ -776,7 +1012,7 @@ def _judge_waiters(w: World, scn: dict, info: dict, viol, zone, clock, sun, slac
                     if zone.irregular(label):
                         continue
                     crossed = zone.offset_changes_between(startup_local, inst) or zone.irregular(inst)
-                    tol = 0.002 if strict else (None if (kind == "period" and crossed) else slack)
+                    tol = LABEL_TOL if strict else (None if (kind == "period" and crossed) else slack)
                     if tol is not None and abs((label - inst).total_seconds()) > tol:
                         viol("C06.trigger_time_label", {**sig, "kind": kind.split(":")[0]},
                              f"{desc}: returned at wall {ret['wall']} with trigger_time {label}, the denoted instant is "
@@ -788,6 +1024,8 @@ def _judge_waiters(w: World, scn: dict, info: dict, viol, zone, clock, sun, slac
                     msig = dict(sig)
                     if not after:
                         msig["kind"] = first[2]
+                    if poked_just_before(name, first[0]):
+                        msig["poke"] = "just_before_instant"
                     viol("C06.missed_instant", msig,
                          f"{desc}: no return at the first denoted instant {first[1]}; it returned at wall {ret['wall']} with "
                          f"trigger_time {label}" + (f" after being woken at {[round(pk['vt'] - t_beg, 3) for pk in woken]} s "
@@ -811,6 +1049,8 @@ def _judge_waiters(w: World, scn: dict, info: dict, viol, zone, clock, sun, slac
                 msig = dict(sig)
                 if not after:
                     msig["kind"] = first[2]
+                if poked_just_before(name, first[0]):
+                    msig["poke"] = "just_before_instant"
                 how = (f"it returned {rtype!r} at wall {ret['wall']}" if ret is not None
                        else f"still waiting at wall {clock.local_at(cutoff)}")
                 viol("C06.missed_instant", msig,
@@ -847,9 +1087,23 @@ def oracle(w: World, scn: dict, info: dict):
     def stalled_past(vt):
         return any(s["vt0"] - 1e-6 <= vt <= s["vt1"] for s in stalls)
 
+    def poked_just_before(name, vt):
+        """Was a poke of that function / waiter delivered within a few loop passes of the instant?  (Before it, as far
+        as the trigger is concerned - it did not fire; the instant of a now-relative specification is known to the
+        oracle only to a few passes.)"""
+        near = 10 * w.cfg["cost_us"] * 1e-6 + w.cfg["timer_late_ms"] * 1e-3 + 1e-4
+        return any(pk["w"] == name and abs(pk["vt"] - vt) <= near for pk in info["pokes"])
+
     for func in spec["funcs"]:
+        if func.get("other") and func["specs"]:
+            w.probe("function_with_other_trigger")
+            if any(pk["w"] == func["name"] and "aimed" in pk for pk in info["pokes"]):
+                w.probe("function_poked_just_before_instant")
         for ep in epochs:
             marks = [m for m in w.marks if m["args"][0] == func["name"] and m["args"][1] == ep["gen"]]
+            if func.get("other"):
+                # (runs by the other trigger - its condition is never met - would be another property's subject)
+                marks = [m for m in marks if m["raw_kw"].get("trigger_type") == "time"]
             timed = [m for m in marks if isinstance(m["raw_kw"].get("trigger_time"), dt.datetime)]
             startups = [m for m in marks if m["raw_kw"].get("trigger_time") == "startup"]
             shutdowns = [m for m in marks if m["raw_kw"].get("trigger_time") == "shutdown"]
@@ -948,7 +1202,7 @@ def oracle(w: World, scn: dict, info: dict):
                 if hit is not None:
                     used.add(hit)
                     vt, inst, kind, strict = must[hit]
-                    tol = 0.002 if strict else (slack if kind != "period" else None)
+                    tol = LABEL_TOL if strict else (slack if kind != "period" else None)
                     kind = kind.split(":")[0] if tol is not None else kind
                     if tol is not None and abs((label - inst).total_seconds()) > tol:
                         after = zone.offset_changes_between(m["wall"] - dt.timedelta(days=4), m["wall"] + dt.timedelta(hours=25))
@@ -973,10 +1227,16 @@ def oracle(w: World, scn: dict, info: dict):
                     msig = {"func": func_kind, "dst": "near_change" if after else "none"}
                     if not after:
                         msig["kind"] = kind
+                    how = ""
+                    if poked_just_before(func["name"], vt):
+                        msig["poke"] = "just_before_instant"
+                        how = (f"; its {func.get('other')} trigger was poked (condition not met) "
+                               f"{[round((vt - pk['vt']) * 1e6) for pk in info['pokes'] if pk['w'] == func['name'] and abs(pk['vt'] - vt) < 0.5]}"
+                               " us before the instant")
                     viol("C06.missed_instant", msig,
                          f"{desc}: no run at the denoted instant {inst} (runs near it: {near}; all runs "
-                         f"{[str(m['raw_kw']['trigger_time']) for m in timed][:12]})", vt - clock.vt0)
-    n_fired += _judge_waiters(w, scn, info, viol, zone, clock, sun, slack, stalls)
+                         f"{[str(m['raw_kw']['trigger_time']) for m in timed][:12]}){how}", vt - clock.vt0)
+    n_fired += _judge_waiters(w, scn, info, viol, zone, clock, sun, slack, stalls, poked_just_before)
     for bad in info.get("successor") or []:
         # (the successor function is shared by both subsystems: the special cases are not split by subsystem)
         viol("C06.successor_function",
